@@ -3,7 +3,7 @@
 (* The *.RAND instructions (properties C12 / C13): nondeterministic, so    *)
 (* the result carries holes whose classes are the documented contracts.    *)
 (***************************************************************************)
-EXTENDS PushGraph
+EXTENDS PushGraphText
 
 RandInstr == {"BOOLEAN.RAND", "INTEGER.RAND", "FLOAT.RAND", "NAME.RAND", "NAME.RANDBOUNDNAME",
               "CODE.RAND", "BOOLVECTOR.RAND", "INTVECTOR.RAND", "FLOATVECTOR.RAND"}
